@@ -58,7 +58,7 @@ func c06Groups(tier string) []core.Group {
 
 func c06OpType(c *core.Ctx, op string, t reflect.Type) {
 	full := true // every layout pair for every element type in both tiers; thorough adds shapes and value draws
-	lays := gen.RowLayouts
+	lays := gen.ElemLayouts
 	rot := 0
 	reps := 1
 	if c.Tier == "thorough" {
